@@ -109,9 +109,10 @@ func (x *c02Run) execChild() (string, bool) {
 }
 
 func genC02(r *Rng, idx int) *C02Case {
-	cs := &C02Case{Cfg: EngCfg{Strict: r.Chance(0.1)}}
+	cs := &C02Case{Cfg: genCfg(r, 0.1)}
 	if idx%8 == 0 {
 		cs.EnvOnly = true
+		cs.Cfg.Delims = nil // cmd/liquid has no option for delimiters
 		cs.Env = &Env{}
 		for _, n := range []string{"s", "t", "u", "w"} {
 			cs.Env.Names = append(cs.Env.Names, n)
@@ -155,6 +156,7 @@ type c02Run struct {
 }
 
 func newC02Run(cs *C02Case, cli string) *c02Run {
+	cs.Cfg.apply()
 	return &c02Run{cs: cs, src: Source(cs.Tree), b0: cs.Env.Build(nil), shared: map[uint64]*liquid.Engine{}, tpls: map[uint64]*liquid.Template{}, cli: cli}
 }
 
